@@ -32,6 +32,14 @@ theorem restrictions_only_exclude (S : Suite) (user : List (String × VLine)) (w
   simp only [allowed, List.filter_nil, List.foldl_nil]
   exact foldl_applyV_sublist _ _
 
+/-- … so the tests a restricted worker composes are among those an unrestricted worker composes: every leaf
+assignment of a selected test under the restricted worker is one under the worker without its restrictions
+(it differs "only in tests excluded by that worker's restrictions"). -/
+theorem restricted_leaves_subset (S : Suite) (user : List (String × VLine)) (w : Worker) (t : Test) (a : Asg)
+    (ha : a ∈ leafAsgs S (allowed S user w) t) :
+    a ∈ leafAsgs S (allowed S user { w with restr := [] }) t :=
+  leafAsgs_mono S _ _ (fun vm _ hv => (restrictions_only_exclude S user w vm).subset hv) t a ha
+
 /-- The copy a worker receives does not depend on which other workers take part, nor on their order or their
 restrictions. -/
 theorem worker_copy_independent (S : Suite) (user : List (String × VLine)) (sel : List RLine)
